@@ -16,11 +16,11 @@ CLAIMS = {
     "C01": dict(
         technique="Lean 4 theorems over a field-generic model of Grid.transform/transform_vectors/coords + "
                   "differential correspondence with the implementation",
-        text="16 theorems (round trip, composition for all axes triples and for two/three grids, vectors = linear part "
+        text="18 theorems (round trip, composition for all axes triples and for two/three grids, vectors = linear part "
              "for both code paths, anchors, lattice count/values/range for every n, rounding bound) about the model of "
              "core/grid.py+linalg.py, for every dimension, size, spacing, orthonormal direction; the model is compared "
              "with the implementation on every run (all 16 axes pairs x vectors flag x one/two grids, API helpers, "
-             "every n in [1,4096] x both conventions x float32/64).",
+             "every n in [1,4096] x both conventions x float32/64). Also: sampling an image on its own grid is the identity and Cube.transform between two cubes built from grids equals the grid map (C01_sample_identity, C01_cube_of_grid).",
         ref="5 C01"),
     "C02": dict(
         technique="Lean 4 theorems relating the model of Grid index<->world maps and header conversion to an independent ITK "
@@ -43,13 +43,13 @@ CLAIMS = {
     "C04": dict(
         technique="Lean 4 theorems (sampling reproduces world-linear images for any grid pair; data and grid halves of every "
                   "index-only operation use the same offset and size) + exact index correspondence + ramp oracle",
-        text="10 theorems: sampling a world-linear image on any other oriented grid returns the same world-linear function at "
+        text="11 theorems: sampling a world-linear image on any other oriented grid returns the same world-linear function at "
              "every target sample inside the source field of view (either align_corners of either grid); for crop/pad with "
              "per-border margins of either sign, center crop/pad, region of interest, narrow and valid convolution the "
              "tensor-side offset and size equal the grid-side ones for all sizes and arguments; a grid whose origin is the old "
              "sample `first` places new sample j at old sample j+first. Offsets are compared exactly with the implementation "
              "(index-coded data, distinct per-image grids); ramps are pushed through every operation and compositions of up to 3 "
-             "with a geometric validity mask. Resizing-family ramps are oracle-only so far (partial).",
+             "with a geometric validity mask. Resizing of a world-linear image reproduces it at the new sample positions (C04_resize_ramp, C04_sample_ramp). One known finding: compositions through grids with fractional size (data and grid sizes disagree).",
         ref="5 C04"),
     "C05": dict(
         technique="Lean 4 theorems: deepali's sampling coordinate pipeline = ITK physToIdx∘idxToPhys (any grid pair, "
@@ -65,12 +65,14 @@ CLAIMS = {
         technique="Lean 4 theorems on the model of spatial/base|linear|composite|transformer (parameter->tensor per class, "
                   "points/disp/matrix views, sequential fold, warp coordinate pipeline for ANY cube map) + correspondence over "
                   "every transform class",
-        text="28 theorems: default parameters give the identity per class (refuted with witnesses for QuaternionRotation and "
-             "HomogeneousTransform, whose current defaults are not the identity); tensor/matrix/points/world-points/disp views "
-             "describe one map; sequential composites fold in listed order (any length); multi-level composites add "
-             "displacements (refuted for linear members: the code sums matrices); for any cube map T and any (transform, "
-             "target, source) grid triple ImageTransformer samples the source at worldToIndex(W_T(indexToWorld j)). Clauses the "
-             "current code violates are refuted and listed as known findings (F-06a..h).",
+        text="25 theorems: default parameters give the identity for every class (Quaternion/Homogeneous defaults were repaired); "
+             "tensor/matrix/points/world-points/disp views describe one map; sequential composites fold in listed order (any "
+             "length); multi-level composites add displacements (linear members included after the repair); for any cube map T "
+             "and any (transform, target, source) grid triple ImageTransformer samples the source at "
+             "worldToIndex(W_T(indexToWorld j)). F-06a/b/c/d/h were repaired by fix: commits; the clauses the current code "
+             "still violates are refuted with witnesses and listed as known findings (F-06e: disp of a linear transform on a "
+             "foreign grid, F-06f: grid-evaluated non-rigid member warped onto another target, F-06g: disp of a non-rigid "
+             "transform on a grid of the other align_corners convention).",
         ref="5 C06"),
     "C07": dict(
         technique="Lean 4 per-class inverse theorems + induction over composites, and the forward/inverse parameter-sharing "
@@ -95,12 +97,13 @@ CLAIMS = {
     "C11": dict(
         technique="Lean 4 induction over squaring steps on the model of core/flow.py expv (sampling an affine field "
                   "inside the hull is exact) + correspondence of the literal recursion",
-        text="7 theorems: one squaring step on the sampled displacement of a hull-preserving affine map gives the sampled "
+        text="9 theorems: one squaring step on the sampled displacement of a hull-preserving affine map gives the sampled "
              "displacement of its square; hence expv with k steps equals the displacement of (I+sH, sh) iterated 2^k "
              "times at every grid point, for every k, dimension, grid size >= 2, either align_corners and padding; zero "
              "steps; inverse flag = negated scale = negated field; a checkable sufficient condition for hull "
              "invariance. The literal recursion (incl. clamping) is compared with the implementation on random fields; "
-             "convergence to exp(H) and the second-order smooth-field bound are exploration only (partial).",
+             "closed form as a matrix power (C11_closed_form_matrix_power); convergence to exp(H) is proved for diagonal generators "
+             "(C11_limit_diagonal_partial); the general limit and the second-order smooth-field bound are exploration only (partial).",
         ref="5 C11"),
     "C13": dict(
         technique="Lean 4 theorems on the model of core/flow.py compose_flows/lie_bracket/compose_svfs + correspondence "
@@ -118,8 +121,9 @@ CLAIMS = {
         text="10 theorems: every reachable world satisfies the buffer-tag and allocation invariants; a call after ANY history "
              "(any length) observes exactly the parameters, grid and conditioning held at that moment, for plain and "
              "composite transforms; disp right after data_/grid_/condition_/reset reflects the new state; a linked transform "
-             "follows what its source last evaluated; C07's sharing clause. The four defects found (F-07, F-09a, F-15a x3) "
-             "were repaired. Regrid-preserves-world is oracle-only (partial).",
+             "follows what its source last evaluated; C07's sharing clause. The defects found (F-07, F-09a, F-15a x3) "
+             "were repaired. Regrid-preserves-world is oracle-only (partial): smooth and exactly-linear fields, either "
+             "align_corners before/after; keyword conditioning by oracle.",
         ref="5 C09"),
     "C10": dict(
         technique="Lean 4 theorems: representation conversions are the grid's vector maps; expv is conjugate to one "
@@ -134,7 +138,7 @@ CLAIMS = {
     "C12": dict(
         technique="Lean 4 theorems on index-function models of the finite-difference stencils, flow_derivatives dictionary "
                   "loop, jacobian_det/divergence/curl/lie_bracket + correspondence over all modes/keys/spacing forms",
-        text="21 theorems: every finite-difference mode is exact on affine fields (interior for the one-sided padded "
+        text="24 theorems: every finite-difference mode is exact on affine fields (interior for the one-sided padded "
              "schemes, everywhere for forward_central_backward, margin 1 for sobel/prewitt), any dilation and spacing form; "
              "second derivatives exact on quadratics in the interior; mixed derivatives symmetric; subset requests return "
              "the same values; jacobian_det = Matrix.det (D=2,3, with/without identity); divergence = trace; curl; Lie "
@@ -152,10 +156,10 @@ CLAIMS = {
     "C15": dict(
         technique="Lean 4 soundness/completeness theorem for a storage-write monitor over aten op traces (TorchDispatchMode) + "
                   "slot/container model of shallow-copy accessors; verdicts cross-checked against bitwise before/after snapshots",
-        text="17 theorems: a trace accepted by the monitor cannot change any argument storage for ANY written contents "
+        text="19 theorems: a trace accepted by the monitor cannot change any argument storage for ANY written contents "
              "(induction over traces of any length), rejection is never spurious, accepted iff no execution changes an argument; "
              "with-argument accessors of Grid/Cube/Image(Batch) are pure, deepcopy is independent in both directions; for "
-             "transforms the model predicts exactly which receiver slots an accessor changes (refuted clauses = known findings). "
+             "transforms the model predicts exactly which receiver slots an accessor changes (five defects repaired by fix: commits; the three remaining refuted clauses - shared exp module / shared composite children - are known findings). "
              "Every public name of core.functional (113) and losses.functional (40) is traced on enumerated call paths "
              "(1413 paths); the proof is per enumerated path, not about all paths of the Python source (partial).",
         ref="5 C15"),
@@ -165,19 +169,21 @@ CLAIMS = {
         text="46 theorems: mean/sum are the mean/sum of none; masked pointwise losses ignore mask-0 samples and average over "
              "the mask; norm scaling; pointwise losses zero/range/symmetric; NCC and LCC identical/range (Cauchy-Schwarz)/"
              "symmetric/affine-invariant with the exact epsilon law; Dice/Tversky identical/symmetric/range and "
-             "Tversky(1/2,1/2) = Dice on binary inputs; MI symmetric for arbitrary window/log. Clauses the current code "
-             "violates (tversky_loss TypeError, ncc mask shape, tversky weight shape, MI mask, NMI class) are refuted and "
-             "listed as known findings. MI/NMI identical/range need properties of log (partial).",
+             "Tversky(1/2,1/2) = Dice on binary inputs; MI symmetric for arbitrary window/log. tversky_loss TypeError, tversky weight shape and the NMI class were "
+             "repaired by fix: commits; the two clauses the current code still violates (ncc_loss mask shape, mi_loss ignores "
+             "mask-0 samples) are refuted and listed as known findings. MI/NMI identical/range need properties of log (partial).",
         ref="5 C16"),
     "C17": dict(
         technique="Lean 4 theorems on the regularisers assembled from the C12 stencil model, lame_parameters, "
                   "inverse_consistency_loss units + correspondence over regularisers x modes x spacings x reductions",
-        text="29 theorems: bending/curvature vanish on affine fields (margin-2 interior for padded schemes, everywhere for "
+        text="24 theorems: bending/curvature vanish on affine fields (margin-2 interior for padded schemes, everywhere for "
              "forward_central_backward) and are invariant under adding one; gradient terms vanish for translations and take "
              "their closed forms on affine fields; non-negativity; quadratic scaling; spacing powers; linear transforms give "
-             "zero; reductions; seven elastic-constant pairs round-trip (two refuted: F-17a/b); inverse consistency of exact "
-             "inverse pairs is zero; unit factors as coded (refuted for align_corners=False: F-17c). 24 known-finding keys "
-             "(boundary non-zero energies of padded schemes, lame_parameters, units, spline-mode elasticity).",
+             "zero; reductions; seven elastic-constant pairs round-trip; inverse consistency of exact "
+             "inverse pairs is zero with the right unit factors; B-spline bending/elasticity are the analytic ones. Seven defects "
+             "(lame_parameters x2, inverse-consistency units and mask/sum, elasticity stride and shape) were repaired by fix: "
+             "commits; 17 known-finding keys remain, all one family: padded one-sided/central/Gaussian stencils give non-zero "
+             "boundary energies on affine fields (refuted by C17_bending_default_affine_refuted).",
         ref="5 C17"),
     "C18": dict(
         technique="Lean 4 theorems on models of the MetaImage header grammar, channel axis shuffle, NIfTI affine/LPS-RAS and "
@@ -192,12 +198,12 @@ CLAIMS = {
     "C19": dict(
         technique="Lean 4 induction over programs on a provenance model of the __torch_function__ dispatcher, "
                   "__getitem__, cat/split, copy/pickle + exact correspondence on random op programs",
-        text="25 theorems: for programs of any length over the op classes where the code is right (elementwise, casts, "
+        text="14 theorems: for programs of any length over the op classes where the code is right (elementwise, casts, "
              "clone, indexing by int/slice/list/tensor, iteration, cat/split/tensor_split along dim 0, chunk/unbind, "
              "ops along non-batch dims, interpolate, pooling, copy/deepcopy/pickle) every typed result carries one grid "
              "per entry of matching shape, entry i carrying the grid (and axes) of the item whose data it holds; typed "
              "ImageBatch results always have matching grid count/shape (demotion); the full statement is refuted with "
-             "small witnesses for each op class the current code mis-describes (13 known findings).",
+             "small witnesses for each op class the current code still mis-describes (flip/roll/index_select along the batch dim, permute moving the batch dim: 4 known findings); ten defects were repaired by fix: commits.",
         ref="5 C19"),
     "C20": dict(
         technique="Lean 4 HasDerivAt theorems for closed-form model gradients of polynomial/rational operations + "
@@ -207,7 +213,7 @@ CLAIMS = {
              "evaluation, every finite-difference mode and quadratic regularisers, compose/scale-translate/2-D rotation. Nine "
              "streams compare autograd of the real operation with the model gradient (a detach/round/in-place overwrite changes "
              "autograd although forward values stay the same). Multi-step expv, logv, MI, LCC, 3-D rotations and transform stacks "
-             "have no model gradient: exploration only (partial). Three known findings (rounding / re-wrapping cuts gradients).",
+             "have no model gradient: exploration only (partial). Eight defects repaired by fix: commits; five known-finding keys remain (disp(other grid) of non-rigid models and ImageBatch.sample_grid cut the gradient by rounding / re-wrapping).",
         ref="5 C20"),
 }
 
